@@ -218,11 +218,11 @@ def build_jobs(tier, seed0, d1=None, d2=None, two=True):
     subs.append(("two objects: all interleavings to total depth %d (%d histories) x %d ordered kind pairs" % (d3, npre3, len(pairs)),
                  npre3 * len(pairs), len(lv3) * len(pairs)))
     if tier == "thorough" and two:
-        lv4, npre4 = lc.leaves("SINPF", 2, 6)
+        lv4, npre4 = lc.leaves("SINPF", 2, 5)
         pairs6 = [(KINDS[0], KINDS[0]), (KINDS[0], KINDS[5]), (KINDS[4], KINDS[1])]
         for pr in pairs6:
-            jobs += [("hist", "two-objects-d6", pr, h) for h in lv4]
-        subs.append(("two objects: all interleavings to total depth 6 (%d histories) x 3 kind pairs" % npre4,
+            jobs += [("hist", "two-objects-d5", pr, h) for h in lv4]
+        subs.append(("two objects: all interleavings to total depth 5 (%d histories) x 3 kind pairs" % npre4,
                      npre4 * 3, len(lv4) * 3))
     tc = list(term_cases(tier, seed0))
     jobs += [("simple", c) for c in tc]
